@@ -95,6 +95,25 @@ CHECKS.update({
         ref="5 (C13)", technique="TLA+ model checking + schedule enumeration on the real code through a yield-point hook, validated by TLC"),
 })
 
+CHECKS.update({
+    "C08": dict(
+        text="(1) TLC model checking of spec/Txn.tla (one writer, 2-3 snapshot readers, commit as an internal step between call and return, abort, crash): the bounds a trace can observe from call/return stamps are implied by snapshot isolation. "
+             "(2) real threads: one writer thread (updates, builds in 1- and 4-thread pools, commits, aborts; every version overwrites a sentinel item carrying the version number, aborted transactions write a negative one) and 1-8 reader threads that open a read transaction "
+             "at random moments, hold it across later commits and log several times the full projection of their snapshot (raw dump through their own RoTxn, open result, query lattice). Events are ordered by one global atomic counter (never wall-clock). "
+             "TraceTxn.tla checks for every observation: the version is one whose commit had been called when begin returned and not older than the newest commit that had returned when begin was called; it never changes while the reader holds its transaction; never an aborted marker; "
+             "the projected state equals the state the writer logged for that version (no mixture); it opens, is a valid forest and answers the query lattice exactly. (3) single-threaded commit/abort histories through TraceMain.tla (abort restores the committed state, also after failed builds).",
+        note="LMDB's MVCC is the trusted base; the check shows that arroy adds nothing outside the caller's transaction. Schedules are sampled by the OS scheduler with random sleeps, not enumerated.",
+        ref="5 (C08)", technique="TLA+ model checking of the transaction model + trace validation of real multi-threaded runs (TLC)"),
+    "C09": dict(
+        category="fault_enumeration",
+        text="kill-point enumeration bound to the specification: a child process runs a deterministic history of 3-5 committed versions (single builder thread) and kills itself with SIGKILL at (a) the n-th poll of the cancellation callback over all builds (quick: stride, thorough: all), "
+             "(b) every operation boundary, (c) delays of 0..6000 us inside every commit; it reports START v / ACK v on a pipe. The parent reopens the directory, projects the raw dump and logs C.Recovered(acked, inflight, version found, state, open, query lattice). "
+             "TraceTxn.tla checks: the version found is the acknowledged one or the one in flight, its state equals the golden run's state of that version exactly (never a mixture), it opens, passes the C01 conjuncts and answers the query lattice exactly, no stray keys. "
+             "Txn.tla (TLC) shows the recovered-version rule holds for every crash point of the transaction model.",
+        note="LMDB durability (copy-on-write commit, no MDB_NOSYNC) is trusted; a SIGKILL does not exercise power loss.",
+        ref="5 (C09)", technique="crash-point enumeration (SIGKILL) + trace validation (TLC) + TLA+ model checking"),
+})
+
 REASONS_NOT_YET = "check not built yet (work in progress; DESIGN.md section 9 gives the order of work)"
 
 
@@ -116,7 +135,7 @@ def main():
     na = [dict(property_id=p, reason=NA.get(p, REASONS_NOT_YET)) for p in ALL if p not in CHECKS]
     m = dict(
         version=1,
-        setup_cmd="cd /verif/harness && cargo build --release 2>&1 | tail -3 && cd /verif/spec && for m in Forest Store Search Arroy TraceMain NodeIds TraceIds; do tla-sany $m.tla > /dev/null || exit 1; done",
+        setup_cmd="cd /verif/harness && cargo build --release 2>&1 | tail -3 && cd /verif/spec && for m in Forest Store Search Arroy TraceMain NodeIds TraceIds Txn TraceTxn; do tla-sany $m.tla > /dev/null || exit 1; done",
         hooks=dict(
             guard="--cfg arroy_verif",
             enable="rustflags = [\"--cfg\", \"arroy_verif\", \"--check-cfg\", \"cfg(arroy_verif)\"] in /verif/harness/.cargo/config.toml; the harness depends on /repo by path, so every check rebuilds /repo's working tree with the hooks on",
